@@ -727,6 +727,18 @@ class PyFat(object):
                                      tmp_lfn_entry: FATLongDirectoryEntry =
                                      None):
         """Parse directory entries in address range."""
+        dir_entries, tmp_lfn_entry, _ = self.__parse_dir_entries_in_address(
+            address, max_address, tmp_lfn_entry)
+        return dir_entries, tmp_lfn_entry
+
+    def __parse_dir_entries_in_address(self, address, max_address,
+                                       tmp_lfn_entry):
+        """Parse directory entries in address range.
+
+        :returns: Tuple of parsed entries, pending LFN entry and a `bool`
+                  telling if the end-of-directory mark has been found.
+        """
+        last_entry_found = False
         if tmp_lfn_entry is None:
             tmp_lfn_entry = FATLongDirectoryEntry()
 
@@ -752,6 +764,7 @@ class PyFat(object):
                     continue
                 elif ex.free_type == FATDirectoryEntry.LAST_DIR_ENTRY_MARK:
                     # Last directory entry, do not parse any further
+                    last_entry_found = True
                     break
             else:
                 dir_hdr["DIR_Name"] = dir_sn
@@ -785,7 +798,7 @@ class PyFat(object):
             # Reset temporary LFN entry
             tmp_lfn_entry = FATLongDirectoryEntry()
 
-        return dir_entries, tmp_lfn_entry
+        return dir_entries, tmp_lfn_entry, last_entry_found
 
     def parse_dir_entries_in_cluster_chain(self, cluster) -> list:
         """Parse directory entries while following given cluster chain."""
@@ -796,10 +809,13 @@ class PyFat(object):
         for c in self.get_cluster_chain(cluster):
             # Parse all directory entries in chain
             b = self.get_data_cluster_address(c)
-            ret = self.parse_dir_entries_in_address(b, b+max_bytes,
-                                                    tmp_lfn_entry)
-            tmp_dir_entries, tmp_lfn_entry = ret
+            ret = self.__parse_dir_entries_in_address(b, b+max_bytes,
+                                                      tmp_lfn_entry)
+            tmp_dir_entries, tmp_lfn_entry, last_entry_found = ret
             dir_entries += tmp_dir_entries
+            if last_entry_found:
+                # Nothing but free slots follows the end-of-directory mark
+                break
 
         return dir_entries
 
